@@ -8,9 +8,12 @@ Not covered: quoted triples, the conversion paths (from_term, into_term...), sop
 term types (Arc/String interning: CBMC cost).
 """
 import json
-from engine import core, overlay, native, kani_unit
+from engine import core, overlay, native, kani_unit, verus
+from engine.core import Undecided
 from engine.kani_unit import H
+from engine.rsx import LostAnchor, RewriteRefused
 from contracts import common
+from units import termeq
 
 LEVEL = "model_checking"
 ID = "C02"
@@ -25,7 +28,30 @@ HARNESSES = [
 ]
 
 
+def run_verus_part(rep):
+    """Unbounded: the default Term::eq (and Triple::eq / eq_spo, through which it recurses into quoted triples) decides
+    exactly teq, the equality the property states, for all terms of any nesting depth; teq is an equivalence."""
+    try:
+        info = termeq.build(core.REPO)
+    except (LostAnchor, RewriteRefused) as e:
+        rep.notes.append("U-TERMEQ not generated (%s): Term::eq is then covered by the bounded Kani harnesses only" % e)
+        return []
+    res = verus.run_verus(ID, "termeq", info["text"])
+    rep.cuts.update(info["cuts"])
+    rep.rewrites.update(info["rewrites"])
+    for a in info["assumptions"]:
+        rep.assume(a)
+    rep.functions.append("Term::eq default body (api/src/term.rs), Triple::eq, Triple::eq_spo (api/src/triple.rs): extracted, bodies verbatim up to R0/R6/R8 (Verus, unbounded, any nesting depth)")
+    failed = verus.record(rep, res, info["expect_functions"], "verus:termeq::", "")
+    # vacuity canary: against a case-sensitive tag equality the same text must be refuted
+    can = termeq.build(core.REPO, canary="case_sensitive_tags")
+    cres = verus.run_verus(ID, "termeq_canary", can["text"])
+    rep.guard("termeq canary (spec with case-sensitive tags) is refuted", cres["funcs"].get("term_eq") is False)
+    return [(f, res) for f in failed]
+
+
 def run(rep):
+    vfailed = run_verus_part(rep)
     rep.assume(common.ASSUMPTION)
     rep.assume("harness term type K stands for every Term implementation that answers the accessors consistently; the default methods only use the accessors")
     rep.functions += ["Term::eq, Term::cmp, Term::hash default bodies (api/src/term.rs)", "LanguageTag PartialEq/Ord/Hash (api/src/term/language_tag.rs)", "NsTerm::eq (api/src/ns/_term.rs)"]
@@ -33,15 +59,18 @@ def run(rep):
         common.apply_common(s)
         s.append("api/src/term.rs", common.expand(open(core.VERIF + "/contracts/term/kani_term.rs").read(), "api"))
         failed = kani_unit.run_harnesses(rep, s, "sophia_api", HARNESSES, jobs=5)
-    if failed:
+    if failed or vfailed:
         rc, out, err, secs = native.run_replay(ID, "c02", [])
         witness, confirmed = (out.strip().splitlines()[-1], True) if rc == 1 else (None, False)
+        for f, res in vfailed:
+            rep.violation("verus:termeq::" + f, verus.blocks_for(res, [f]), witness=witness,
+                          replay_text="./check C02 --replay <this file>   # replay_src/c02: pairs/triples of SimpleTerm/NsTerm/native terms on the real crate", confirmed=confirmed)
         for h, r in failed:
             rep.violation("kani:sophia_api::" + h.name, kani_unit.describe_failure(r), witness=witness,
                           replay_text="./check C02 --replay <this file>   # replay_src/c02: pairs/triples of SimpleTerm/NsTerm/native terms on the real crate", confirmed=confirmed)
-    rep.not_covered += ["quoted triples (nesting)", "conversions FromTerm / TryFromTerm / from_term_ref / into_term", "sophia_term (ArcTerm, RcTerm, GenericLiteral), rio Trusted<..>, jsonld, sparql ResultTerm, ArcStrStash",
+    rep.not_covered += ["quoted triples (nesting) for cmp / hash (eq is proved for any nesting)", "conversions FromTerm / TryFromTerm / from_term_ref / into_term", "sophia_term (ArcTerm, RcTerm, GenericLiteral), rio Trusted<..>, jsonld, sparql ResultTerm, ArcStrStash",
                         "strings longer than one byte, non-ASCII content"]
-    rep.notes.append("bounded Kani harnesses only; nothing proved for all terms")
+    rep.notes.append("Term::eq is proved (Verus) to be the stated equivalence for all terms; cmp, hash, LanguageTag and NsTerm are bounded Kani harnesses")
 
 
 def replay(path):
